@@ -1,23 +1,30 @@
 #!/bin/bash
-# usage: confirm_mutant.sh <name>   (expects /tmp/seeded/<name>/{patch.diff,demo.sh,meta.json})
+# usage: confirm_mutant.sh <name>...   (expects /tmp/seeded/<name>/{patch.diff,demo.sh,meta.json})
 # Confirms in a scratch worktree: patch applies, builds, 38 tests pass, demo fails with / passes without.
-name="$1"; src=/tmp/seeded/$name; wt=/tmp/wt/confirm_$name
-log=/tmp/seeded/$name/confirm.log
-exec > "$log" 2>&1
-set -x
-cd /repo && git worktree add -q --detach "$wt" HEAD || exit 2
-trap 'cd /; git -C /repo worktree remove --force "$wt"' EXIT
-cd "$wt" || exit 2
+# One shared build directory (/tmp/confirm_target) so that dependencies are compiled once; names are
+# processed one after the other. Result: last line of /tmp/seeded/<name>/confirm.log.
 export CARGO_NET_OFFLINE=true
-# unchanged binary
-cargo build --offline -q 2>/dev/null || { echo "RESULT base-build-failed"; exit 1; }
-cp target/debug/zinoma /tmp/seeded/$name/zinoma.base
-git apply "$src/patch.diff" || { echo "RESULT patch-does-not-apply"; exit 1; }
-cargo build --offline -q 2>/dev/null || { echo "RESULT mutant-build-failed"; exit 1; }
-cp target/debug/zinoma /tmp/seeded/$name/zinoma.mut
-t=$(cargo test --offline 2>&1 | grep -E "^test result" | awk '{p+=$4; f+=$6} END {print p" passed "f" failed"}')
-echo "TESTS $t"
-bash "$src/demo.sh" /tmp/seeded/$name/zinoma.base; b=$?
-bash "$src/demo.sh" /tmp/seeded/$name/zinoma.mut; m=$?
-rm -f /tmp/seeded/$name/zinoma.base /tmp/seeded/$name/zinoma.mut
-echo "RESULT tests=[$t] demo_base=$b demo_mutant=$m"
+export CARGO_TARGET_DIR=/tmp/confirm_target
+wt=/tmp/wt/confirm
+cd /repo && { [ -d "$wt" ] || git worktree add -q --detach "$wt" HEAD; } || exit 2
+for name in "$@"; do
+  src=/tmp/seeded/$name; log=$src/confirm.log
+  (
+    set -x
+    cd "$wt" || exit 2
+    git checkout -q --detach "$(git -C /repo rev-parse HEAD)"; git checkout -q -- .; git clean -fdq src tests
+    cargo build --offline -q 2>/dev/null || { echo "RESULT base-build-failed"; exit 1; }
+    cp $CARGO_TARGET_DIR/debug/zinoma $src/zinoma.base
+    git apply "$src/patch.diff" || { echo "RESULT patch-does-not-apply"; exit 1; }
+    cargo build --offline -q 2>/dev/null || { echo "RESULT mutant-build-failed"; exit 1; }
+    cp $CARGO_TARGET_DIR/debug/zinoma $src/zinoma.mut
+    t=$(cargo test --offline 2>&1 | grep -E "^test result" | awk '{p+=$4; f+=$6} END {print p" passed "f" failed"}')
+    echo "TESTS $t"
+    timeout -s KILL 300 bash "$src/demo.sh" $src/zinoma.base; b=$?
+    timeout -s KILL 300 bash "$src/demo.sh" $src/zinoma.mut; m=$?
+    rm -f $src/zinoma.base $src/zinoma.mut
+    git checkout -q -- .
+    echo "RESULT tests=[$t] demo_base=$b demo_mutant=$m"
+  ) > "$log" 2>&1
+  echo "$name: $(tail -1 "$log")"
+done
